@@ -24,7 +24,7 @@ LEVEL_TEXT = ('A state is the full recursive snapshot (path, type, size, hash) o
 LEVEL_NOTE = ('trees beyond the menu are not explored; of the non-regular entries only a dangling symbolic link is included (a '
               'FIFO would block every reading mode); --clean ordering is C12')
 RULE = ('initial states = all subsets of {T1_50000001, T2_50000002, T3_50000002.bak, other.txt, archive/T4_50000004, '
-        'archive/T5_50000001, 50000001/ (directory), T6_00500A07 (id with leading zeros)}; transitions = 49 command templates; BFS to depth 2 (quick) or 3 '
+        'archive/T5_50000001, 50000001/ (directory), T6_00500A07 (id with leading zeros)}; transitions = 53 command templates; BFS to depth 2 (quick) or 3 '
         '(thorough) with snapshot deduplication. Non-trivial: transition whose model effect is not the identity, or any '
         'transition from a non-initial state; distinct by (state, command).')
 ASSUMPTIONS = ['which of several files containing the id --delete removes is not fixed']
@@ -49,6 +49,7 @@ COMMANDS = [
     ['-d', '50000001'], ['-d', '0x50000002'], ['-d', '50000003'], ['-d', '50000004'], ['-d', '00500a07'], ['-i', '0x00500A07'], ['-d', '5000000'], ['-d', '50000002', '-e', '.bak'],
     ['-i', '50000001', '-c'], ['-i', '0x50000002', '-x', '-c'], ['-l', '-c'], ['-a', '-E', '-c'], ['-n', '-c'], ['--plid', '50000001', '-c'],
     ['--src', 'BD8D', '-c'], ['--bmc-id', '2', '-c'], ['--src-exclude', '@exclude.txt', '-c'],
+    ['-j', '-o', '@nodir'], ['-j', '-c', '-E', '-o', '@nodir'], ['-j', '-o', '@pels/T1_50000001'], ['-j', '-c', '-E', '-o', '@exclude.txt'],
     ['-D'], ['-D', '-e', '.bak'], ['-j', '-c', '-E', '-o', '@out'], ['-f', '@pels/T2_50000002', '-c'], ['-l', '-P'],
 ]
 
@@ -151,6 +152,12 @@ def model(before, cmd, after, stdout):
         return probs
     if mode == '-j':
         outdir = 'out' if '-o' in cmd else 'pels'
+        if '-o' in cmd and cmd[cmd.index('-o') + 1] != 'out':
+            # the chosen output directory does not exist (or is a file): nothing may be written anywhere, nothing removed
+            if removed or added or changed:
+                probs.append(('json-no-output-dir', '--json -o %s (not a directory): removed %s added %s changed %s'
+                              % (cmd[cmd.index('-o') + 1], removed, added, changed)))
+            return probs
         ext = cmd[cmd.index('-e') + 1] if '-e' in cmd else None
         allowed = {}
         for p in top_files(before):
